@@ -110,6 +110,10 @@ func (visitor *BuilderVisitor) TraverseConstructor(schemas Schemas, builder Buil
 		return constructor, err
 	}
 	constructor.Assignments = tools.Map(constructor.Assignments, func(assignment Assignment) Assignment {
+		if err != nil {
+			return assignment
+		}
+
 		assign, err = visitor.VisitAssignment(schemas, builder, assignment)
 		return assign
 	})
